@@ -72,10 +72,10 @@ func main() {
 		os.Exit(h.ExitHarnessError)
 	}
 
-	nHealth := run.N(220, 3000)
-	nReload := run.N(40, 400)
-	nGating := run.N(16, 160)
-	nScripted := run.N(40, 400)
+	nHealth := run.N(300, 3000)
+	nReload := run.N(120, 1500)
+	nGating := run.N(20, 200)
+	nScripted := run.N(64, 640)
 
 	var wg sync.WaitGroup
 	var wallMu sync.Mutex
@@ -91,9 +91,9 @@ func main() {
 			wallMu.Unlock()
 		}()
 	}
-	phase("health", func() { run.ParallelRange(baseHealth, nHealth, run.N(220, 600), healthCase) })
+	phase("health", func() { run.ParallelRange(baseHealth, nHealth, run.N(300, 600), healthCase) })
 	phase("reload", func() { run.ParallelRange(baseReload, nReload, run.N(14, 16), reloadCase) })
-	phase("gating", func() { run.ParallelRange(baseGating, nGating, run.N(16, 20), gatingCase) })
+	phase("gating", func() { run.ParallelRange(baseGating, nGating, 20, gatingCase) })
 	phase("scripted", func() { run.ParallelRange(baseScripted, nScripted, run.N(16, 16), scriptedCase) })
 	wg.Wait()
 	run.Set("phase_wall_s", walls)
